@@ -26,6 +26,9 @@ CLAIMED = {
  "C04": dict(cat="proof", tech="Lean 4 theorems (enum rejection at full wire width, size_reject for every constant-sized container by mutual induction, soundness of the read-expression checker) + T-gen of all enum read sites and opcode tables + corruption correspondence",
              text="Lean proves for the specification decoder that an undeclared number at an enum field's full wire width is an error reporting that number, and — by mutual induction over the syntax — that a container of constant size never decodes from a body of another length (size_reject). For the generated side, every enum read expression of every generated reader (760 sites) is re-extracted and classified by a checker whose soundness theorem says accepted shapes reject every undeclared wire value reporting it (the narrowing `as` cast shape is proved to alias); opcode match arms of all six opcode readers are compared with the wowm opcode sets. Canonical encodings with one enum field corrupted (aliases modulo 2^8/2^16, neighbours, maxima), constant-sized messages with other body lengths and undefined opcodes are run through the libraries.",
              note="Trusted: Lean kernel; tools/rust_reads.py, wowm.py, corpus.py; Rust harness. The narrowing-cast defect was repaired in /repo (fix commit).", ref="§4 C04"),
+ "C03": dict(cat="fault_enumeration", tech="Lean 4 totality / no-growth / element-count theorems for the specification decoder + systematic fault enumeration of the implementation under catch_unwind, counting allocator and RLIMIT_AS",
+             text="Partial by nature: Lean proves that the specification decoder is total and never needs more array elements than input bytes (decode_total, decMembers_no_growth, iterDec_count, iterDecAll_count — all containers, by mutual induction). The implementation's behaviour on hostile bytes depends on the allocator and runtime, so it is established by fault enumeration: every canonical frame and every wowm test vector (incl. compressed messages) is truncated at every prefix, every 1/2/4-byte window is set to 0/1/2/max/max-half, header sizes are shifted, random bytes and random frames per opcode are tried (~570k decodes in the quick tier); each decode runs under catch_unwind with a counting global allocator and a 4 GiB address-space limit. Oracle: a message or an error, no panic/abort, single allocations within 64 x frame + 32 MiB. Four panics/unbounded allocations were repaired in /repo; the capacity-before-guard defect of counted arrays is a known finding.",
+             note="Observed, not proved: allocator behaviour, stack use, wall clock. Trusted: harness, counting allocator, the generator of faults.", ref="§4 C03"),
 }
 NA_REASON = "not yet claimed: machinery for this property is still under construction (see DESIGN.md §7 order of construction)"
 
